@@ -82,6 +82,9 @@ class PauliSumExponential:
     def _is_parameterized_(self) -> bool:
         return protocols.is_parameterized(self._exponent)
 
+    def _parameter_names_(self):
+        return protocols.parameter_names(self._exponent)
+
     def _resolve_parameters_(
         self, resolver: cirq.ParamResolver, recursive: bool
     ) -> PauliSumExponential:
